@@ -16,7 +16,8 @@ import pandas as pd
 
 from harness import frames as F
 
-KEYCOLS = ("id", "u", "g")          # injective columns: the row id can be recovered from any of them
+KEYCOLS = ("id", "u", "g", "t")     # injective columns: the row id can be recovered from any of them
+T_BASE = 1_600_000_000             # column t: tz-aware timestamps, one second apart
 EXTRA_KINDS = ["int32", "float32", "Int64", "boolean", "str", "bytes", "dt_ns", "dt_ms", "dttz_us", "td_us",
                "cat_str", "cat_int", "bool", "uint8", "string"]
 
@@ -49,9 +50,21 @@ def gen_dataset(rng, force=None):
             if k.startswith("cat_"):
                 cs["ncat"] = rng.choice([1, 2, 5])
             extra.append(cs)
+    if force.get("rich") and n > 0:
+        # every dtype family whose read depends on handle state (time zones, categories, nullable/masked, text, units)
+        extra = [{"name": "x0_dttz_us", "kind": "dttz_us", "nulls": "some", "seed": 11, "tz": "Europe/Berlin"},
+                 {"name": "x1_cat_str_ordered", "kind": "cat_str_ordered", "nulls": "some", "seed": 12, "ncat": 5},
+                 {"name": "x2_Int64", "kind": "Int64", "nulls": "some", "seed": 13},
+                 {"name": "x3_str", "kind": "str", "nulls": "some", "seed": 14},
+                 {"name": "x4_dt_ms", "kind": "dt_ms", "nulls": "first", "seed": 15},
+                 {"name": "x5_cat_int", "kind": "cat_int", "nulls": "none", "seed": 16, "ncat": 2},
+                 {"name": "x6_boolean", "kind": "boolean", "nulls": "some", "seed": 17},
+                 {"name": "x7_dttz_ns", "kind": "dttz_ns", "nulls": "none", "seed": 18, "tz": "US/Pacific"}]
     index = None
-    if n > 0 and rng.random() < 0.3:
-        index = rng.choice(["id", "u", "id"])
+    if force.get("index") and n > 0:
+        index = force["index"]
+    elif n > 0 and rng.random() < 0.3:
+        index = rng.choice(["id", "u", "t", "t"])
     fab = []
     if n > 0 and rng.random() < 0.5:
         for _ in range(rng.choice([1, 1, 2])):
@@ -64,7 +77,8 @@ def gen_dataset(rng, force=None):
     else:
         how = rng.choice(["dir", "dir", "_metadata"])
     return {"sizes": sizes, "scheme": scheme, "part": part, "extra": extra, "index": index, "fab": fab, "open": how,
-            "mod": [rng.choice([2, 3]), rng.choice([2, 3])]}
+            "mod": [rng.choice([2, 3]), rng.choice([2, 3])], "tz": rng.choice(["US/Pacific", "Europe/Berlin", "UTC", "Asia/Kolkata"]),
+            "tunit": rng.choice(["us", "ns", "ms"])}
 
 
 def dataset_frame(ds):
@@ -74,6 +88,10 @@ def dataset_frame(ds):
     df = pd.DataFrame(data)
     if n == 0:
         df["u"] = df["u"].astype(object)
+    unit = ds.get("tunit", "us")
+    per = {"ms": 10**3, "us": 10**6, "ns": 10**9}[unit]
+    tvals = ((T_BASE + np.arange(n, dtype="int64")) * per).view("M8[%s]" % unit)
+    df["t"] = pd.Series(tvals).dt.tz_localize("UTC").dt.tz_convert(ds.get("tz", "US/Pacific"))
     for cs in ds["extra"]:
         df[cs["name"]] = F.col_values(cs, n)
     m1, m2 = ds["mod"]
@@ -319,6 +337,8 @@ def recover_ids(df):
             return [int(v) for v in values]
         if name == "u":
             return [int(str(v)[1:]) for v in values]
+        if name == "t":
+            return [int(round(pd.Timestamp(v).timestamp())) - T_BASE for v in values]
         return [int(round(float(v) - 0.5)) for v in values]
     try:
         for name in KEYCOLS:
@@ -335,6 +355,43 @@ def recover_ids(df):
 def frame_obs(df):
     ids = recover_ids(df)
     return [[str(c) for c in df.columns], index_names(df), ids if ids is not None else ["n", len(df)]]
+
+
+def dtype_sig(dt):
+    """what of a dtype must agree between a partial read and the full read: kind, width, datetime unit and time zone.
+    Nullable extension types and their numpy counterparts are identified (which of the two is allocated depends on whether the
+    selected row groups' statistics show missing values); text types are identified."""
+    if isinstance(dt, pd.CategoricalDtype):
+        return "category"
+    if isinstance(dt, pd.DatetimeTZDtype):
+        return "datetime64[%s, %s]" % (dt.unit, dt.tz)
+    s = str(dt)
+    if s in ("string", "str") or s.startswith("string"):
+        return "object"
+    if s == "boolean":
+        return "bool"
+    if s[:3] in ("Int", "UIn", "Flo"):
+        return s.lower()
+    return s
+
+
+def frame_dtypes(df):
+    out = {}
+    for c in df.columns:
+        out[str(c)] = dtype_sig(df[c].dtype)
+    for n in df.index.names:
+        if n is not None:
+            out[str(n)] = dtype_sig(df.index.get_level_values(n).dtype)
+    return out
+
+
+def frame_categories(df):
+    """name -> [ordered flag, label list] for the categorical columns"""
+    out = {}
+    for c in df.columns:
+        if isinstance(df[c].dtype, pd.CategoricalDtype):
+            out[str(c)] = [bool(df[c].cat.ordered), [repr(x) for x in df[c].cat.categories]]
+    return out
 
 
 def frame_cells(df):
@@ -431,6 +488,27 @@ def oracle(base, prog, res):
         if len(df) != len(rows):
             probs.append(("rows", "frame %d has %d rows, the corresponding part of the full read has %d" % (k, len(df), len(rows))))
             continue
+        # dtypes (kind, width, datetime unit, time zone) as in the full read; exempt: columns whose category-ness the caller
+        # chose with categories=, and partition columns (their category list is that of the selected paths)
+        dts = frame_dtypes(df)
+        cats_arg = rd[3] if rd[0] == "iter" else None
+        for name, sig in dts.items():
+            ref = base["full_dtypes"].get(name)
+            if ref is None or name in base["pcols"]:
+                continue
+            if cats_arg is not None and "category" in (sig, ref):
+                continue
+            if name in index_names(df) and "category" in (sig, ref) and sig != ref:
+                continue        # a categorical column used as index is delivered as its labels' Index or as CategoricalIndex
+            if sig != ref:
+                probs.append(("dtype", "frame %d %s %r has dtype %s, the full read has %s" % (
+                    k, "index level" if name in index_names(df) else "column", name, sig, ref)))
+        if cats_arg is None and len(df) > 0:
+            for name, oc in frame_categories(df).items():
+                ref = base["full_categories"].get(name)
+                if ref is not None and name not in base["pcols"] and oc != ref:
+                    probs.append(("dtype", "frame %d categorical column %r has (ordered, labels) %r, the full read has %r" % (
+                        k, name, oc, ref)))
         cells = frame_cells(df)
         for name, cl in cells.items():
             ref = base["full_cells"].get(name)
@@ -628,7 +706,7 @@ def base_facts(ds, pf):
     pcols = [str(c) for c in pf.cats]
     cols = [str(c) for c in pf.columns]
     return {"rgs": rg_desc, "counts": counts, "parts": parts, "total": pos, "full_len": len(full),
-            "full_cells": frame_cells(full), "full_cols": [str(c) for c in full.columns], "full_index": index_names(full),
+            "full_cells": frame_cells(full), "full_dtypes": frame_dtypes(full), "full_categories": frame_categories(full), "full_cols": [str(c) for c in full.columns], "full_index": index_names(full),
             "cols": cols, "pcols": pcols, "index": [ds["index"]] if ds["index"] else [], "avail": cols + pcols,
             "cat_cols": [c["name"] for c in ds["extra"] if c["kind"].startswith("cat_")],
             "full_ids": recover_ids(full)}
@@ -706,6 +784,14 @@ def run_dataset(job):
 def confirmation_programs(rng, ds, base):
     """the known-bad region (an index of two names), a handful per dataset; plus fixed partition-column-as-index programs"""
     out = []
+    # handle state round trips: every read kind through a pickled / copied / deep-copied handle (and a derived one)
+    for op in (["pickle"], ["copy"], ["deepcopy"]):
+        if op == ["pickle"] and ds["open"] == "filelike":
+            continue
+        dflt = {"kind": "default", "names": []}
+        out.append({"ops": [op], "rd": ["to_pandas", None, dflt], "stream": "state-roundtrip"})
+        out.append({"ops": [["pick", -1], op], "rd": ["iter", None, dflt, None], "stream": "state-roundtrip"})
+        out.append({"ops": [op, ["slice", None, 2, None]], "rd": ["head", base["total"], None, {"kind": "false", "names": []}], "stream": "state-roundtrip"})
     # two names over REQUIRED numeric columns only: with an optional column as a level the real code stores raw values as
     # level codes and the frame cannot even be inspected safely (segfault seen) - recorded in the finding, not re-run here
     distinct_nonempty = len(set(g[0] for g in base["rgs"] if g[1] > 0))
